@@ -170,7 +170,10 @@ func (d *Decoder) decodeNALUs(pkt *rtp.Packet) ([][]byte, error) {
 				errSize, h264.MaxAccessUnitSize)
 		}
 
-		d.fragments = append(d.fragments, pkt.Payload[2:])
+		// fragments without data are allowed (RFC 6184, 5.8) but carry nothing: do not keep them
+		if len(pkt.Payload[2:]) != 0 {
+			d.fragments = append(d.fragments, pkt.Payload[2:])
+		}
 		d.fragmentNextSeqNum++
 
 		if end != 1 {
